@@ -147,7 +147,11 @@ def run(cx):
                 res = pe.emit_program(setup=setup, loop=loop_pre + tail, global_decls=gl, **kw)
             if res.raised:
                 raise AnalysisError(f"emit() raises for {dev} {label}")
-            f = l2.functions_of(res.text, ["setup", "loop"])
+            try:
+                f = l2.functions_of(res.text, ["setup", "loop"])
+            except AnalysisError as e_:
+                r.fail(f"{dev}[{label}]/sketch-compiles", (em, em.func("emit")), f"{dev} declared {label}: the extracted sketch does not even parse as C++ ({str(e_)[-160:]}): the declaration was not hoisted")
+                continue
             sc, lc = flat_calls(f["setup"][0]["body"]), flat_calls(f["loop"][0]["body"])
             confs = [c for c in sc if is_conf(c)]
             r.check(len({show(c) for c in confs}) >= NCONF[dev], f"{dev}[{label}]/configured-in-setup", (em, em.func("emit")), f"{dev} declared {label}: setup() configures {[show(c) for c in confs]} (expected {NCONF[dev]} configuration call(s)); loop() then uses the device unconfigured")
